@@ -75,7 +75,11 @@ def exercise(text, multiple):
 
 
 BAD_LINES = ["no colon here", ";=:x", "SUMMARY;X=\x01:v", "DTSTART:notadate", "DTEND;VALUE=DATE:2020", "RRULE:FREQ=NEVER;;",
-             "DURATION:P", "PRIORITY:high", "GEO:1", "X;Y", ":", "SUMMARY;X:v", "TRIGGER:-", "SEQUENCE:1.5", "EXDATE:20201301"]
+             "DURATION:P", "PRIORITY:high", "GEO:1", "X;Y", ":", "SUMMARY;X:v", "TRIGGER:-", "SEQUENCE:1.5", "EXDATE:20201301",
+             # several values on one line of which a later one is bad: the line goes as a whole
+             "FREEBUSY:20240102T100000Z/PT1H,20240102T1500Z/PT1H", "FREEBUSY:20240102T100000Z/PT1H,20240102T120000Z/PT1H,x",
+             "RDATE:20240101T000000,2024", "EXDATE:20240101T000000,20240102T000000,nope", "CATEGORIES;X=\x01:a,b",
+             "RDATE;VALUE=PERIOD:20240101T000000Z/PT1H,20240101T000000Z/oops"]
 
 
 def run(ctx, res):
